@@ -256,6 +256,10 @@ def _reset(env):
 #   B out: 'none' | 'file' | 'ext-pre' | 'ext-post' | 'ext-last' | 'group'
 #   P out: 'res' | 'str'
 #   forms: 'f' (single file)  'g' (whole group)  'a' / 'b' (group member)  'res' (PythonResult)  'str' (its as_str file)
+# Extended features (all optional): job['out2'] = 'file' | 'group' gives a bash job a SECOND output (ofile2 / og2);
+# a read may be [source, form, which] with which = 0 | 1 selecting the producer's output; the same producer (and the
+# same resource) may be read more than once; job['split'] puts the first read in one command() call and the rest in a
+# second one; job['dep_first'] issues consumer.depends_on(producer) for every producer it reads BEFORE its command.
 
 B_OUTS = ('none', 'file', 'ext-pre', 'ext-post', 'ext-last', 'group')
 P_OUTS = ('res', 'str')
@@ -268,6 +272,27 @@ def out_forms(job, consumer_type):
     if consumer_type == 'P':
         return ('res',) if job['out'] == 'res' else ('res', 'str')
     return () if job['out'] == 'res' else ('str',)
+
+
+def norm_reads(job):
+    return [(r[0], r[1], r[2] if len(r) > 2 else 0) for r in job['reads']]
+
+
+def out_kind(job, which):
+    return job['out'] if which == 0 else job.get('out2')
+
+
+def all_refs(p, job, consumer_type):
+    """every reference (p, form, which) a consumer of the given type may make to job p's outputs"""
+    if job['type'] == 'P':
+        return [(p, f, 0) for f in out_forms(job, consumer_type)]
+    refs = []
+    for which in (0, 1):
+        kind = out_kind(job, which)
+        if kind in (None, 'none'):
+            continue
+        refs += [(p, f, which) for f in (('g', 'a', 'b') if kind == 'group' else ('f',))]
+    return refs
 
 
 class Built:
@@ -304,9 +329,11 @@ def build_and_run(prog):
     pyargs = {}     # job index -> list of keys                                     (python jobs)
     late_ext = []
 
-    def ref_obj(src, form):
+    def ref_obj(src, form, which=0):
         if isinstance(src, int):
             o = outs[src]
+            if isinstance(o, list):
+                o = o[which]
             if form in ('f', 'g'):
                 return o
             if form in ('a', 'b'):
@@ -323,45 +350,62 @@ def build_and_run(prog):
 
     for k, sp in enumerate(specs):
         j = jobs[k]
-        reads = [tuple(r) for r in sp['reads']]
+        reads = norm_reads(sp)
+        if sp.get('dep_first'):
+            for p in sorted({src for src, _, _ in reads if isinstance(src, int)}):
+                j.depends_on(jobs[p])
         if sp['type'] == 'B':
             out = sp['out']
+            outs[k] = []
             if out == 'group':
                 j.declare_resource_group(og={'a': '{root}.a', 'b': '{root}.b'})
-                outs[k] = j.og
+                outs[k].append(j.og)
             elif out != 'none':
                 if out == 'ext-pre':
                     j.ofile.add_extension('.txt')
-                outs[k] = j.ofile
-            pieces = [('lit', f"echo MARK{k} 'a  b' \"$HOME\" \\; __RESOURCE_FILE__ ${{BATCH_TMPDIR}}/x; cat ")]
-            for i, (src, form) in enumerate(reads):
-                pieces.append(('ref', ('read', src, form)))
-                pieces.append(('lit', f".L{k}_{i}' | ' "))
-            if out != 'none':
-                pieces.append(('lit', f'> '))
-                pieces.append(('ref', ('out', k)))
-            pieces.append(('lit', f' # tail{k} "__JOB__" done'))
-            text = ''
-            for kind, v in pieces:
-                if kind == 'lit':
-                    text += v
-                elif v[0] == 'out':
-                    text += f'{outs[k]}'
-                else:
-                    text += f'{ref_obj(v[1], v[2])}'
-            j.command(text)
-            templates[k] = pieces
+                outs[k].append(j.ofile)
+            if sp.get('out2') == 'group':
+                j.declare_resource_group(og2={'a': '{root}.a', 'b': '{root}.b'})
+                outs[k].append(j.og2)
+            elif sp.get('out2') == 'file':
+                outs[k].append(j.ofile2)
+            elif sp.get('out2') is not None:
+                raise HarnessError(sp['out2'])
+            groups = [list(enumerate(reads))]
+            if sp.get('split') and len(reads) >= 2:
+                groups = [[(0, reads[0])], list(enumerate(reads))[1:]]
+            templates[k] = []
+            for gi, grp in enumerate(groups):
+                pieces = [('lit', f"echo MARK{k}c{gi} 'a  b' \"$HOME\" \\; __RESOURCE_FILE__ ${{BATCH_TMPDIR}}/x; cat ")]
+                for i, (src, form, which) in grp:
+                    pieces.append(('ref', ('read', i)))
+                    pieces.append(('lit', f".L{k}_{i}' | ' "))
+                if gi == 0:
+                    for which in range(len(outs[k])):
+                        pieces.append(('lit', '> ' if which == 0 else ' 2> '))
+                        pieces.append(('ref', ('out', k, which)))
+                pieces.append(('lit', f' # tail{k}c{gi} "__JOB__" done'))
+                text = ''
+                for kind, v in pieces:
+                    if kind == 'lit':
+                        text += v
+                    elif v[0] == 'out':
+                        text += f'{outs[k][v[2]]}'
+                    else:
+                        text += f'{ref_obj(*reads[v[1]])}'
+                j.command(text)
+                templates[k].append(pieces)
             if out == 'ext-post':
                 j.ofile.add_extension('.txt')
             elif out == 'ext-last':
                 late_ext.append(j)
         else:
-            args = [ref_obj(src, form) for src, form in reads]
+            args = [ref_obj(src, form, which) for src, form, which in reads]
             r = j.call(_pyfn, *args)
             outs[k] = {'res': r}
             if sp['out'] == 'str':
                 outs[k]['str'] = r.as_str()
-            pyargs[k] = [('read', src, form) for src, form in reads]
+            pyargs[k] = [('read', i) for i in range(len(reads))]
     for j in late_ext:
         j.ofile.add_extension('.txt')
     for k, sp in enumerate(specs):
@@ -369,6 +413,8 @@ def build_and_run(prog):
             o = outs[k]
             if isinstance(o, dict):
                 o = o['str'] if sp['out'] == 'str' else o['res']
+            else:
+                o = o[0]
             b.write_output(o, f'gs://out/final/w{k}')
 
     with contextlib.redirect_stdout(io.StringIO()):
@@ -431,7 +477,7 @@ def judge(prog, bt):
     specs = prog['jobs']
     n = len(specs)
     viol = []
-    stats = {'reads': 0, 'quoted': 0, 'group_reads': 0, 'py_reads': 0, 'staged': 0}
+    stats = {'reads': 0, 'quoted': 0, 'group_reads': 0, 'py_reads': 0, 'staged': 0, 'same_twice': 0, 'two_of_one_producer': 0}
 
     def bad(sig, msg):
         if not any(s == sig for s, _ in viol):
@@ -451,21 +497,23 @@ def judge(prog, bt):
         script = command[2]
         subst[k] = {}
         if specs[k]['type'] == 'B':
-            got = _match_template(script, bt.templates[k])
-            if got is None:
-                bad('command-text-changed', f'job {k}: the submitted script does not contain the command with only its '
-                    f'resource references replaced; script={script!r}')
-                continue
-            keys = [v for kind, v in bt.templates[k] if kind == 'ref']
-            for key, text in zip(keys, got):
-                if key[0] == 'read' and key[1] == 'r2':
-                    stats['quoted'] += 1   # a reference whose path contains a space
-                word = _one_word(text, tmp[k])
-                if word is None:
-                    bad('reference-not-one-quoted-word', f'job {k}: reference {key} was replaced by {text!r}, which the '
-                        'shell does not read as exactly one word')
+            reads_k = norm_reads(specs[k])
+            for pieces in bt.templates[k]:
+                got = _match_template(script, pieces)
+                if got is None:
+                    bad('command-text-changed', f'job {k}: the submitted script does not contain the command with only its '
+                        f'resource references replaced; script={script!r}')
                     continue
-                subst[k][key] = word
+                keys = [v for kind, v in pieces if kind == 'ref']
+                for key, text in zip(keys, got):
+                    if key[0] == 'read' and reads_k[key[1]][0] == 'r2':
+                        stats['quoted'] += 1   # a reference whose path contains a space
+                    word = _one_word(text, tmp[k])
+                    if word is None:
+                        bad('reference-not-one-quoted-word', f'job {k}: reference {key} was replaced by {text!r}, which the '
+                            'shell does not read as exactly one word')
+                        continue
+                    subst[k][key] = word
         else:
             # python job: the arguments travel in a serialised file written by the client and downloaded by the job
             arg_files = []
@@ -539,14 +587,14 @@ def judge(prog, bt):
         else:
             bad('producer-path-not-uploaded', f'job {p} writes its output to {ppath} (per its command) but uploads {outs_p}')
 
-    def producer_member_paths(p):
-        """local paths of producer p's output files, as its own command names them: {form: path}"""
+    def producer_member_paths(p, which=0):
+        """local paths of one output of producer p, as its own command names them: {form: path}"""
         sp = specs[p]
         if sp['type'] == 'B':
-            base = subst[p].get(('out', p))
+            base = subst[p].get(('out', p, which))
             if base is None:
                 return None
-            if sp['out'] == 'group':
+            if out_kind(sp, which) == 'group':
                 return {'a': base + '.a', 'b': base + '.b'}
             return {'f': base}
         return None  # python producers: located through their uploads (below)
@@ -554,11 +602,18 @@ def judge(prog, bt):
     for k in range(n):
         if k not in subst:
             continue
-        for src, form in [tuple(r) for r in specs[k]['reads']]:
-            key = ('read', src, form)
+        seen_reads = set()
+        for i, (src, form, which) in enumerate(norm_reads(specs[k])):
+            key = ('read', i)
             if key not in subst[k]:
                 continue
             stats['reads'] += 1
+            if isinstance(src, int):
+                if (src, form, which) in seen_reads:
+                    stats['same_twice'] += 1
+                elif any(s0 == src for s0, _, _ in seen_reads):
+                    stats['two_of_one_producer'] += 1
+                seen_reads.add((src, form, which))
             if specs[k]['type'] == 'P':
                 stats['py_reads'] += 1
             val = subst[k][key]
@@ -577,12 +632,13 @@ def judge(prog, bt):
             for member, cpath in files:
                 if isinstance(src, int):
                     # ---------- produced by another job
-                    res = ('job', src, member)
+                    res = ('job', src, which, member)
                     note(res, local=cpath)
-                    dl = download_source(k, cpath, f'{member} of job {src}', stale_ok=specs[src].get('out') == 'ext-last')
+                    dl = download_source(k, cpath, f'{member} of output {which} of job {src}',
+                                         stale_ok=specs[src].get('out') == 'ext-last' and which == 0)
                     prod = bt.rec[src]
                     if specs[src]['type'] == 'B':
-                        pm = producer_member_paths(src)
+                        pm = producer_member_paths(src, which)
                         if pm is None:
                             continue
                         ppath = pm[member]
@@ -652,17 +708,15 @@ def judge(prog, bt):
                                 f'the client uploads {bt.transfers}')
 
         # outputs of this job that nobody reads still must be named consistently when they are written out
-        if specs[k]['type'] == 'B' and specs[k].get('wout'):
-            pm = producer_member_paths(k)
-            if pm is not None:
-                for member, ppath in pm.items():
-                    note(('job', k, member), local=ppath)
-                    if not upload_dests(k, ppath):
+        if specs[k]['type'] == 'B':
+            for which in (0, 1):
+                if out_kind(specs[k], which) in (None, 'none'):
+                    continue
+                pm = producer_member_paths(k, which)
+                for member, ppath in (pm or {}).items():
+                    note(('job', k, which, member), local=ppath)
+                    if which == 0 and specs[k].get('wout') and not upload_dests(k, ppath):
                         not_uploaded(k, ppath)
-        elif specs[k]['type'] == 'B':
-            pm = producer_member_paths(k)
-            for member, ppath in (pm or {}).items():
-                note(('job', k, member), local=ppath)
 
     # ---- distinct resources never share a path -------------------------------------------------------------
     seen = {}
@@ -691,7 +745,8 @@ def run_case(prog):
     except _env()['BatchException'] as e:
         # the DSL refused the program (e.g. a repaired add_extension that refuses late calls): nothing was
         # submitted, so there is nothing to judge
-        return [], {'reads': 0, 'quoted': 0, 'group_reads': 0, 'py_reads': 0, 'staged': 0, 'rejected': 1, 'why': str(e)}
+        return [], {'reads': 0, 'quoted': 0, 'group_reads': 0, 'py_reads': 0, 'staged': 0, 'same_twice': 0,
+                    'two_of_one_producer': 0, 'rejected': 1, 'why': str(e)}
     viol, stats = judge(prog, bt)
     stats['rejected'] = 0
     return viol, stats
@@ -741,21 +796,97 @@ def programs(n, kinds, input_refs, revs):
     yield from rec([])
 
 
+TWO_OUT_KINDS = [('B', 'file', False, 'file'), ('B', 'file', False, 'group'), ('B', 'group', False, 'group')]
+
+
+def _k4(kinds):
+    return [k if len(k) == 4 else k + (None,) for k in kinds]
+
+
+def ext_programs(kinds_by_pos, input_refs, revs):
+    """Programs with at least one EXTENDED feature (second output, two reads of one producer -- two distinct resources
+    or the same one twice --, reads split over two command() calls, depends_on before the read).  From every earlier
+    job a consumer takes no reference, one, or an ordered pair of references (all valid forms of both outputs)."""
+    n = len(kinds_by_pos)
+
+    def rec(prefix, extended):
+        k = len(prefix)
+        if k == n:
+            if extended:
+                for rev in revs if n > 1 else (False,):
+                    yield {'jobs': prefix, 'rev': rev}
+            return
+        for typ, out, w, out2 in _k4(kinds_by_pos[k]):
+            per_src = []
+            for p in range(k):
+                refs = all_refs(p, prefix[p], typ)
+                per_src.append([()] + [(r,) for r in refs] + [(r1, r2) for r1 in refs for r2 in refs])
+            for inp in input_refs:
+                for choice in itertools.product(*per_src):
+                    reads = [list(r) for c in choice for r in c]
+                    n_job_reads = len(reads)
+                    if inp is not None:
+                        reads.append(list(inp))
+                    pair = any(len(c) == 2 for c in choice)
+                    for split in ((False, True) if typ == 'B' and len(reads) >= 2 else (False,)):
+                        for dep in ((False, True) if n_job_reads else (False,)):
+                            job = {'type': typ, 'out': out, 'wout': w, 'reads': reads}
+                            if out2:
+                                job['out2'] = out2
+                            if split:
+                                job['split'] = True
+                            if dep:
+                                job['dep_first'] = True
+                            yield from rec(prefix + [job], extended or pair or split or dep or bool(out2))
+    yield from rec([], False)
+
+
 def plan(tier):
     full = job_kinds('full')
     red = job_kinds('reduced')
-    if tier == 'quick':
-        return [
-            (1, full, INPUT_REFS_FULL, (False,), 'n=1: all job kinds x all input references'),
-            (2, full, INPUT_REFS_FULL, (False, True), 'n=2: all job kinds x all input references x all reads x both creation orders'),
-            (3, red, (None, ('r2', 'f')), (False, True), 'n=3: 4 job kinds (bash file, bash ext-after-command+write_output, '
-             'bash group, python str) x {no input, quoted input} x all reads x both creation orders'),
-        ]
-    return [
-        (1, full, INPUT_REFS_FULL, (False,), 'n=1: all job kinds x all input references'),
-        (2, full, INPUT_REFS_FULL, (False, True), 'n=2: all job kinds x all input references x all reads x both creation orders'),
-        (3, full, (None, ('r2', 'f')), (False, True), 'n=3: all job kinds x {no input, quoted input} x all reads x both creation orders'),
+    cons = [('B', 'none', False), ('B', 'file', False), ('P', 'res', False)]
+    quick = tier == 'quick'
+    base3 = red if quick else full
+    pl = [
+        {'gen': 'base', 'n': 1, 'args': (1, full, INPUT_REFS_FULL, (False,)), 'shards': 1,
+         'what': 'n=1: all job kinds x all input references'},
+        {'gen': 'base', 'n': 2, 'args': (2, full, INPUT_REFS_FULL, (False, True)), 'shards': 16,
+         'what': 'n=2: all job kinds x all input references x all single reads x both creation orders'},
+        {'gen': 'base', 'n': 3, 'args': (3, base3, (None, ('r2', 'f')), (False, True)), 'shards': 64,
+         'what': ('n=3: 4 job kinds (bash file, bash ext-after-command+write_output, bash group, python str)' if quick
+                  else 'n=3: all job kinds') + ' x {no input, quoted input} x all single reads x both creation orders'},
     ]
+    if quick:
+        pl += [
+            {'gen': 'ext', 'n': 2, 'args': ([full + TWO_OUT_KINDS, cons], (None,), (False, True)), 'shards': 16,
+             'what': 'extended n=2: producer = any job kind or a two-output bash job (file+file, file+group, group+group); '
+                     'consumer = bash without output / bash file / python; reads = none, one, or an ORDERED PAIR of references '
+                     '(all forms of both outputs, incl. the same one twice) x split over two command() calls x depends_on '
+                     'before the read x both creation orders'},
+            {'gen': 'ext', 'n': 3, 'args': ([TWO_OUT_KINDS, [('B', 'file', False)], [('B', 'none', False), ('P', 'res', False)]],
+                                            (None,), (False,)), 'shards': 32,
+             'what': 'extended n=3: two-output producer -> bash file job -> bash/python consumer, every job taking none / one / '
+                     'an ordered pair of references from every earlier job x split x depends_on-first'},
+        ]
+    else:
+        pl += [
+            {'gen': 'ext', 'n': 2, 'args': ([full + TWO_OUT_KINDS, full], (None, ('r2', 'f')), (False, True)), 'shards': 32,
+             'what': 'extended n=2: producer = any job kind or a two-output bash job; consumer = any job kind; {no input, '
+                     'quoted input}; reads = none, one, or an ORDERED PAIR of references (all forms of both outputs, incl. the '
+                     'same one twice) x split over two command() calls x depends_on before the read x both creation orders'},
+            {'gen': 'ext', 'n': 3, 'args': ([TWO_OUT_KINDS + [('P', 'str', False)], TWO_OUT_KINDS[:2] + [('B', 'file', False), ('P', 'str', False)],
+                                             [('B', 'none', False), ('P', 'res', False)]], (None,), (False,)), 'shards': 128,
+             'what': 'extended n=3: {two-output bash kinds, python str} -> {file+file, file+group, bash file, python str} -> '
+                     '{bash, python} consumer, every job taking none / one / an ordered pair of references from every earlier '
+                     'job x split x depends_on-first'},
+        ]
+    return pl
+
+
+def plan_programs(entry):
+    if entry['gen'] == 'base':
+        return programs(*entry['args'])
+    return ext_programs(*entry['args'])
 
 
 _OUT_RANK = {o: i for i, o in enumerate(('none', 'file', 'res', 'str', 'group', 'ext-pre', 'ext-post', 'ext-last'))}
@@ -763,24 +894,28 @@ _OUT_RANK = {o: i for i, o in enumerate(('none', 'file', 'res', 'str', 'group', 
 
 def prog_key(prog):
     jobs = prog['jobs']
-    return (len(jobs), sum(len(j['reads']) for j in jobs), sum(bool(j['wout']) for j in jobs), bool(prog.get('rev')),
+    return (len(jobs), sum(len(j['reads']) for j in jobs), sum(bool(j['wout']) for j in jobs),
+            sum(bool(j.get('out2')) + bool(j.get('split')) + bool(j.get('dep_first')) for j in jobs), bool(prog.get('rev')),
             tuple((j['type'], _OUT_RANK[j['out']]) for j in jobs), repr(prog))
 
 
 def _work(item):
     tier, pi, shard, nshards = item
-    n, kinds, inps, revs, _ = plan(tier)[pi]
+    entry = plan(tier)[pi]
     res = {'evals': 0, 'viol': {}, 'reads': 0, 'quoted': 0, 'group_reads': 0, 'py_reads': 0, 'staged': 0,
-           'with_read': 0, 'rejected': 0, 'samples': []}
-    for i, prog in enumerate(programs(n, kinds, inps, revs)):
+           'same_twice': 0, 'two_of_one_producer': 0, 'dep_first': 0, 'split': 0,
+           'with_read': 0, 'rejected': 0, 'samples': [], 'ext': entry['gen'] == 'ext'}
+    for i, prog in enumerate(plan_programs(entry)):
         if i % nshards != shard:
             continue
         viol, stats = run_case(prog)
         res['evals'] += 1
-        for k in ('reads', 'quoted', 'group_reads', 'py_reads', 'staged', 'rejected'):
+        for k in ('reads', 'quoted', 'group_reads', 'py_reads', 'staged', 'rejected', 'same_twice', 'two_of_one_producer'):
             res[k] += stats[k]
         if stats['rejected']:
             continue
+        res['dep_first'] += any(j.get('dep_first') for j in prog['jobs'])
+        res['split'] += any(j.get('split') for j in prog['jobs'])
         if any(isinstance(r[0], int) for j in prog['jobs'] for r in j['reads']):
             res['with_read'] += 1
             if len(res['samples']) < 1:
@@ -797,11 +932,11 @@ def check(tier, seed, procs):
     warnings.simplefilter('ignore')
     pl = plan(tier)
     items = []
-    for pi, (n, *_rest) in enumerate(pl):
-        ns = 1 if n == 1 else (16 if n == 2 else 64)
-        items += [(tier, pi, s, ns) for s in range(ns)]
+    for pi, entry in enumerate(pl):
+        items += [(tier, pi, s, entry['shards']) for s in range(entry['shards'])]
     rows = par.pmap(_work, par.rotate(items, seed), procs, chunksize=1)
-    keys = ('evals', 'reads', 'quoted', 'group_reads', 'py_reads', 'staged', 'with_read', 'rejected')
+    keys = ('evals', 'reads', 'quoted', 'group_reads', 'py_reads', 'staged', 'with_read', 'rejected', 'same_twice',
+            'two_of_one_producer', 'dep_first', 'split')
     tot = {k: sum(r[k] for r in rows) for k in keys}
     best = {}
     for r in rows:
@@ -810,28 +945,35 @@ def check(tier, seed, procs):
                 best[sig] = (key, msg, prog)
     violations = [{'signature': sig, 'message': f'{msg}; program={prog}', 'replay': prog}
                   for sig, (key, msg, prog) in sorted(best.items(), key=lambda kv: kv[1][0])]
-    samples = sorted((s for r in rows for s in r['samples']), key=prog_key)
-    samples = samples[:: max(1, len(samples) // 3)][:3]
+    samples = sorted((s for r in rows if not r['ext'] for s in r['samples']), key=prog_key)
+    samples = samples[:: max(1, len(samples) // 2)][:2]
+    xs = sorted((s for r in rows if r['ext'] for s in r['samples']), key=prog_key)
+    samples += xs[:: max(1, len(xs) // 2)][:2]
     cov = {
         'evaluations': tot['evals'],
         'distinct_nontrivial': tot['with_read'],
         'rule': 'distinct programs in which at least one job reads a resource produced by another job',
         'samples': samples,
         'exhaustive': True,
-        'bounds': '; '.join(p[4] for p in pl) + '. job kinds: bash {no output, file, file+add_extension before/after its '
+        'bounds': '; '.join(e['what'] for e in pl) + '. job kinds: bash {no output, file, file+add_extension before/after its '
                   'command/after all commands, resource group with 2 extensions} x write_output, python {result, result+as_str} '
                   'x write_output; a job reads <=1 input reference (remote file, remote file needing quoting, local file, '
-                  'input group whole/member, input group whose members share a base name) and <=1 reference (every valid form: '
-                  'file, whole group, member, PythonResult, as_str file) from each earlier job',
+                  'input group whole/member, input group whose members share a base name) and, in the non-extended blocks, <=1 '
+                  'reference (every valid form: file, whole group, member, PythonResult, as_str file) from each earlier job',
         'resource_reads_checked': tot['reads'],
         'bash_reads_of_a_path_that_needs_quoting': tot['quoted'],
         'whole_group_reads': tot['group_reads'],
         'reads_by_python_jobs': tot['py_reads'],
         'local_inputs_staged_by_client': tot['staged'],
         'programs_refused_by_the_dsl': tot['rejected'],
+        'reads_of_a_second_distinct_resource_of_the_same_producer': tot['two_of_one_producer'],
+        'reads_of_the_same_resource_again': tot['same_twice'],
+        'programs_with_depends_on_before_the_read': tot['dep_first'],
+        'programs_with_reads_split_over_two_commands': tot['split'],
     }
     vac = None
-    for k in ('reads', 'quoted', 'group_reads', 'py_reads', 'staged', 'with_read'):
+    for k in ('reads', 'quoted', 'group_reads', 'py_reads', 'staged', 'with_read', 'same_twice', 'two_of_one_producer',
+              'dep_first', 'split'):
         if tot[k] == 0:
             vac = f'counter {k} is zero'
     return {
